@@ -106,7 +106,7 @@ class Projector:
     def __init__(self, run: dict, before: dict[str, bytes], after: dict[str, bytes], *, trace_id: str,
                  expect: dict | None = None, site_lines: dict[str, list[int]] | None = None,
                  outside_unchanged: bool = True, schema_check=None, output_given: bool | None = None,
-                 site_findings: dict | None = None, observe: bool = False, bag_check=None):
+                 site_findings: dict | None = None, observe: bool = False, bag_check=None, site_spans: dict | None = None):
         self.run = run
         self.before = before
         self.after = after
@@ -114,6 +114,7 @@ class Projector:
         self.expect_in = expect or {}
         self.site_lines = site_lines or {}
         self.site_findings = site_findings or {}
+        self.site_spans = site_spans or {}
         self.observe = observe
         self.bag_check = bag_check
         self.outside_unchanged = outside_unchanged
@@ -317,7 +318,11 @@ class Projector:
             if site_lines is not None and pre_text is not None and new_text is not None:
                 touched, mapping = changed_orig_lines(pre_text, new_text)
                 marked = marked_sites(pre_text, new_text, site_lines)
-                if marked is not None:
+                spans = self.site_spans.get(rel)
+                if spans:
+                    # sites that span several lines: rewritten iff any line of the span changed
+                    touched = {int(s_) for s_, (a_, b_) in spans.items() if set(range(a_, b_ + 1)) & touched}
+                elif marked is not None:
                     touched, mapping = marked
                 sites = sorted(touched & set(site_lines))
                 # a changeset numbers its change entries on one side of the diff: original or rewritten text
